@@ -30,6 +30,7 @@ struct IPt {
 
 struct CCell {
     std::vector<std::string> polys, paths, labels, refs, props;
+    int strict_tolerance_drops = 0;  // gdstk side: vertices closer to their predecessor than the path's tolerance (strict, in doubles)
     int close_path_vertices = 0;  // consecutive, distinct path vertices at most one grid step apart (raw lists)
     std::map<std::string, std::vector<IPt>> poly_pts;  // polygon line -> its (normalised) vertices
     std::set<std::string> path_tolerances;  // curve tolerance of loaded paths, in grid steps (6 significant digits)
